@@ -47,7 +47,39 @@ def programs(tier):
     # every documented refusal, and its neighbours that must convert
     for p in REFUSAL_PROBES:
         progs.append(("refusal-probe", p))
+    # every numeric operand position of every statement kind once with each extreme literal
+    lits = EXTREME_LITERALS if quick else EXTREME_LITERALS + EXTREME_LITERALS_MORE
+    for t in OPERAND_TEMPLATES:
+        for lit in lits:
+            progs.append(("extreme-literal-probe", "10 " + t.replace("#", lit)))
+    # the empty-DATA filter turns DATA numbers into strings: the same spelling used as an operand elsewhere in
+    # the program must stay a number (every operand position once, three spellings)
+    for k, t in enumerate(OPERAND_TEMPLATES):
+        lit = ["7", "1.5", "&HFF"][k % 3] if quick else None
+        for l in ([lit] if quick else ["7", "1.5", "&HFF"]):
+            progs.append(("data-alias-probe", f"10 DATA {l},,{l}\n20 READ P,Q,R\n30 " + t.replace("#", l)))
+    progs.append(("data-alias-probe", "10 DATA 1,,3\n20 READ A,B,C\n30 SET(1,2,3)\n40 SOUND 1,3"))
+    progs.append(("data-alias-probe", "10 SOUND 1,3:SET(1,2,3)\n20 READ A,B,C\n30 DATA 1,,3"))
     return progs
+
+
+EXTREME_LITERALS = ["1E999", "-1E400", "1E-999", "99999999999999999999", "65497.5", "&HFFFF"]
+EXTREME_LITERALS_MORE = ["1E308", "1.8E308", "-0", "0.0000000000000000000000001", "&H0", "32768", "-32769", "1E38", "4294967296"]
+OPERAND_TEMPLATES = [
+    "POKE #,0", "POKE 1,#", "SOUND #,1", "SOUND 1,#", "CLS #", "A=#", "A=-#", "A=(#)", "A=#+1", "A=1^#", "DIM A(5):A(#)=1",
+    "A(#)=1", "FOR I=# TO 2:NEXT", "FOR I=1 TO #:NEXT", "FOR I=1 TO 2 STEP #:NEXT", "IF A=# THEN 10", "IF # THEN 10",
+    "ON # GOTO 10", "ON # GOSUB 10", "PRINT #", "PRINT #;#", "PRINT@#,\"X\"", "PRINT TAB(#);1", "LOCATE #,1", "LOCATE 1,#",
+    "WIDTH #", "HSCREEN #", "HCOLOR #", "HCOLOR 1,#", "PALETTE #,1", "PALETTE 1,#", "HSET(#,1)", "HSET(1,#)", "HSET(1,1,#)",
+    "HRESET(#,1)", "HLINE(#,1)-(2,2),PSET", "HLINE(1,1)-(#,2),PRESET,BF", "HLINE-(#,2),PSET", "HCIRCLE(#,1),2",
+    "HCIRCLE(1,1),#", "HCIRCLE(1,1),2,#", "HCIRCLE(1,1),2,1,#", "HCIRCLE(1,1),2,1,1,#,1", "HPAINT(#,1)", "HPAINT(1,1),#,1",
+    "HPRINT(#,1),\"X\"", "HPRINT(1,1),#", "HBUFF #,1", "HBUFF 1,#", "HGET(#,1)-(2,2),1", "HPUT(1,1)-(2,#),1,PSET", "HCLS #",
+    "ATTR #,1", "ATTR 1,#,B", "SET(#,1,1)", "SET(1,1,#)", "RESET(#,1)", "A=JOYSTK(#)", "A=BUTTON(#)", "A=POINT(#,1)",
+    "A=HPOINT(#,1)", "A$=STRING$(#,\"A\")", "A$=STRING$(2,#)", "A$=HEX$(#)", "A=INT(#)", "A$=STR$(#)", "A=RND(#)",
+    "A$=CHR$(#)", "A$=LEFT$(\"X\",#)", "A$=MID$(\"X\",#,1)", "A$=MID$(\"X\",1,#)", "A$=RIGHT$(\"X\",#)", "A=PEEK(#)",
+    "A=INSTR(#,\"AB\",\"B\")", "A=ABS(#)", "A=SQR(#)", "A=SGN(#)", "A=VARPTR(A(#))", "DATA #", "DATA 1,#", "READ A(#)",
+    "INPUT A(#)", "RGB:PALETTE RGB", "PLAY \"C\":SOUND #,#", "HDRAW \"U#\"", "CLEAR #", "PCLEAR #", "A=B AND #", "A=NOT #",
+    "IF A=1 THEN POKE #,0 ELSE POKE 1,#", "IF A=1 THEN B=# ELSE IF A=2 THEN B=-# ELSE B=0", "GOTO 10:POKE #,#",
+]
 
 
 REFUSAL_PROBES = [
@@ -62,15 +94,57 @@ REFUSAL_PROBES = [
 ]
 
 
+def dim_probes(r, n):
+    """DIM statements listing several string names whose configured sizes interleave (X, Y, X), under
+    every kind of default: the declaration of each name must survive the grouping by size"""
+    out = []
+    names = ["N$", "L$", "A$", "B$", "X$", "Y$", "Q$", "ZZ$"]
+    for k in range(n):
+        chosen = r.sample(names, r.choice([3, 3, 4, 5]))
+        ents, sizes = [], []
+        pool = r.choice([[64, None, 64], [None, 200, None], [10, 20, 10, 20], [None, 7, 7, None, 7], [5, None, 5, None]])
+        for j, nm in enumerate(chosen):
+            arr = r.randrange(2) == 0
+            ents.append(nm[:-1] + "$(" + ",".join(str(r.randrange(1, 9)) for _ in range(r.choice([1, 1, 2]))) + ")" if arr else nm)
+            sz = pool[j % len(pool)]
+            if sz is not None:
+                sizes.append((nm + ("()" if arr else ""), sz))
+        uses = ":".join((e if "(" not in e else e.split("(")[0] + "(" + ",".join("1" for _ in e.split(","))  + ")") + "=\"V\"" for e in ents)
+        split = r.randrange(3) == 0 and len(ents) > 3
+        text = (f"10 DIM {', '.join(ents[:2])}:DIM {', '.join(ents[2:])}\n20 {uses}" if split
+                else f"10 DIM {', '.join(ents)}\n20 {uses}")
+        o = {"flags": r.choice(G.FLAG_SETS_QUICK), "storage": r.choice([32, 80, 80, 255]), "procname": "prog", "sizes": sizes}
+        out.append((text, o))
+    return out
+
+
 def cases(tier):
     r = rng("b09-suite-opts")
     out = []
+
+    def add(kind, text, o):
+        out.append({"kind": kind, "text": text, "opts": o, "fmt": "b09",
+                    "req": "b09 " + o["flags"] + f" {o['storage']} " + hexs(o["procname"].encode()) + " "
+                           + hexs(",".join(f"{k}={v}" for k, v in o["sizes"]).encode()) + " " + hexs(text.encode())})
+
     for kind, text in programs(tier):
         nopt = 3 if kind in ("example",) else 1
         for o in G.option_sets(r, nopt):
-            out.append({"kind": kind, "text": text, "opts": o, "fmt": "b09",
-                        "req": "b09 " + o["flags"] + f" {o['storage']} " + hexs(o["procname"].encode()) + " "
-                               + hexs(",".join(f"{k}={v}" for k, v in o["sizes"]).encode()) + " " + hexs(text.encode())})
+            add(kind, text, o)
+    for text, o in dim_probes(rng("b09-dim-probes"), 24 if tier != "thorough" else 240):
+        add("dim-probe", text, o)
+    # text that only looks like BASIC09 structure (a call, a header, a placeholder, a comment bracket) inside
+    # comments, literals and DATA items, first / later on a line that is / is not a jump target, dependencies bundled,
+    # with and without label filtering: what is bundled must not depend on where the comment stands
+    hostile = ["RUN ecb_val", "to check: RUN ecb_hex(x)", "run ecb_point", "PROCEDURE ecb_cls", "procedure zz", ": STRING<<>>",
+               "DIM a:STRING<<>>", "(* RUN ecb_int *)", "RUN _ecb_start", "RUN inkey"]
+    shapes = ["10 REM {h}\n20 CLS", "10 GOTO 20\n20 REM {h}\n30 CLS", "10 CLS:REM {h}", "10 ' {h}\n20 A=1", "10 A$=\"{h}\"",
+              "10 DATA {h}\n20 READ A$", "10 PRINT \"{h}\":REM {h}", "10 IF A=1 THEN 30\n20 REM {h}\n30 REM {h}"]
+    for h in hostile:
+        for sh in (shapes if tier == "thorough" else shapes[:4] + [shapes[7]]):
+            for flags in ("1100010", "1101010"):
+                add("hostile-text-probe", sh.replace("{h}", h),
+                    {"flags": flags, "storage": 32, "procname": "prog", "sizes": []})
     return out
 
 
